@@ -11,10 +11,12 @@ import (
 
 func checkAccountBalance(g *GenesisConfig, addr types.Address, required map[types.ZenonTokenStandard]*big.Int) error {
 	// Check account balance for enough qsr
+	found := false
 	for _, block := range g.GenesisBlocks.Blocks {
 		if block.Address != addr {
 			continue
 		}
+		found = true
 
 		for zts, amount := range block.BalanceList {
 			requiredAmount, ok := required[zts]
@@ -35,11 +37,36 @@ func checkAccountBalance(g *GenesisConfig, addr types.Address, required map[type
 		}
 	}
 
+	// an account that owes something must be given its balance explicitly
+	if !found {
+		for token, amount := range required {
+			if amount.Cmp(common.Big0) != 0 {
+				return errors.Errorf("invalid balance for %v Expected token %v to be present but the account has no balance block", addr, token)
+			}
+		}
+	}
+
+	return nil
+}
+
+// CheckUniqueBalanceBlocks ensures that an address has at most one balance block: the validators add the blocks of
+// an address up while the genesis builder applies them one after the other, the last one winning.
+func CheckUniqueBalanceBlocks(g *GenesisConfig) error {
+	seen := make(map[types.Address]struct{}, len(g.GenesisBlocks.Blocks))
+	for _, block := range g.GenesisBlocks.Blocks {
+		if _, ok := seen[block.Address]; ok {
+			return errors.Errorf("more than one balance block for %v", block.Address)
+		}
+		seen[block.Address] = struct{}{}
+	}
 	return nil
 }
 
 func CheckGenesis(g *GenesisConfig) error {
 	if err := CheckFieldsExist(g); err != nil {
+		return err
+	}
+	if err := CheckUniqueBalanceBlocks(g); err != nil {
 		return err
 	}
 	if err := CheckPlasmaInfo(g); err != nil {
